@@ -32,7 +32,7 @@ ASSUMPTIONS = [
 ]
 
 NAMES = ['A', 'B', 'DIR', 'x1', 'Long_Name']
-UNDEF = ['U', 'AA', 'a', 'undefined', 'A B', 'A.B', '0']
+UNDEF = ['U', 'AA', 'a', 'undefined', 'A B', 'A.B', '0', 'values', 'items', 'keys', 'get', 'copy']
 LITERALS = ['', 'x', '/', ' ', 'ab/c', '$', '\\', "'", '"', 'é', ':', '%s', '{0}'.replace('{0}', 'q')]
 NOISE = ['{', '}', '{}', '{{', '}}', '{ }']
 
